@@ -228,11 +228,13 @@ theorem sim_lc {m : Bool} {qi q : Nat} (cx : Ctx m qi q) {e : Nat} {r1 w : List 
     subst hv
     exact ih _ (by simp) v' (guard_drop (guard_drop hg 1) _) hv'
 
-/-- closing step for an escape sequence of the input that the decoder reads as `us`, consuming `k` bytes -/
-theorem finish_esc {m : Bool} {qi q : Nat} (cx : Ctx m qi q) {e k : Nat} {r1 us o w : List Nat}
+/-- closing step for an escape sequence of the input that the decoder reads as `us`, consuming `k` bytes;
+    the output chunk `o` only has to read as `us` in front of the actual rest of the output -/
+theorem finish_esc_at {m : Bool} {qi q : Nat} (cx : Ctx m qi q) {e k : Nat} {r1 us o w : List Nat}
     (hv : decBody m qi (92 :: e :: r1) = some w) (hg : Guard cf (92 :: e :: r1) = true)
     (hin : escStep (lg m qi) e r1 = some (us, k))
-    (hout : ∀ t, decBody m q (o ++ t) = (decBody m q t).map (us ++ ·))
+    (hout : decBody m q (o ++ repA q false ((e :: r1).drop k)) =
+      (decBody m q (repA q false ((e :: r1).drop k))).map (us ++ ·))
     (ih : IH cf m qi q (e :: r1).length) :
     decBody m q (o ++ repA q false ((e :: r1).drop k)) = some w := by
   rw [dec_of_esc cx.hqi hin] at hv
@@ -246,6 +248,14 @@ theorem finish_esc {m : Bool} {qi q : Nat} (cx : Ctx m qi q) {e k : Nat} {r1 us 
     rw [hout, ih _ (by simp) v' hg' hv']
     rfl
 
+theorem finish_esc {m : Bool} {qi q : Nat} (cx : Ctx m qi q) {e k : Nat} {r1 us o w : List Nat}
+    (hv : decBody m qi (92 :: e :: r1) = some w) (hg : Guard cf (92 :: e :: r1) = true)
+    (hin : escStep (lg m qi) e r1 = some (us, k))
+    (hout : ∀ t, decBody m q (o ++ t) = (decBody m q t).map (us ++ ·))
+    (ih : IH cf m qi q (e :: r1).length) :
+    decBody m q (o ++ repA q false ((e :: r1).drop k)) = some w :=
+  finish_esc_at cx hv hg hin (hout _) ih
+
 /-- `\q`, `\\`, `\r`, and `\n` under a quote other than the backtick are kept -/
 theorem sim_keep {m : Bool} {qi q : Nat} (cx : Ctx m qi q) {e : Nat} {r1 w : List Nat}
     (hk : e = q ∨ e = 92 ∨ e = 114 ∨ (q ≠ 96 ∧ e = 110))
@@ -253,7 +263,7 @@ theorem sim_keep {m : Bool} {qi q : Nat} (cx : Ctx m qi q) {e : Nat} {r1 w : Lis
     (hv : decBody m qi (92 :: e :: r1) = some w) (ih : IH cf m qi q (e :: r1).length) :
     decBody m q (repA q false (92 :: e :: r1)) = some w := by
   have hq := cx.hq
-  have h48 : e ≠ 48 := (guard_esc hg).1
+  have h48 : e ≠ 48 := by rcases hk with h | h | h | ⟨_, h⟩ <;> rcases hq with h' | h' | h' <;> omega
   rw [repA_cons]
   have hs : step q false 92 (e :: r1) = ([92, e], 1, false) := by
     have : (e = q ∨ e = 92 ∨ e = 114 ∨ (q ≠ 96 ∧ e = 110) ∨ (e = 48 ∧ ¬ r1.head?.any isOct)) := by
@@ -951,5 +961,60 @@ theorem sim_89 {m : Bool} {qi q : Nat} (cx : Ctx m qi q) {e : Nat} {r1 w : List 
   obtain ⟨rfl, rfl⟩ := hin
   subst hw
   exact sim_raw cx (by omega) (by omega) (by omega) (by omega) hg2 hv' (ih_mono ih (by simp))
+
+/-! ## `\0` -/
+
+/-- for a raw byte the after-NUL flag plays no role -/
+theorem repA_raw_flag {q : Nat} {an : Bool} {c : Nat} {r : List Nat} (hc : c ≠ 92) :
+    repA q an (c :: r) = repA q false (c :: r) := by
+  rw [repA_cons, repA_cons]
+  simp only [step, if_neg hc]
+
+/-- `\0` at the end of the body or in front of a raw byte that is neither a digit nor a backslash -/
+theorem sim_nul {m : Bool} {qi q : Nat} (cx : Ctx m qi q) {r1 w : List Nat}
+    (hnext : r1 = [] ∨ ∃ c r', r1 = c :: r' ∧ c ≠ 92 ∧ isDig c = false)
+    (hg : Guard cf (92 :: 48 :: r1) = true)
+    (hv : decBody m qi (92 :: 48 :: r1) = some w) (ih : IH cf m qi q (48 :: r1).length) :
+    decBody m q (repA q false (92 :: 48 :: r1)) = some w := by
+  have hq := cx.hq
+  have hnd : r1.head?.any isDig = false := by
+    rcases hnext with rfl | ⟨c, r', rfl, _, hd⟩ <;> simp [*]
+  have hno : r1.head?.any isOct = false := by
+    rcases hnext with rfl | ⟨c, r', rfl, _, hd⟩
+    · simp
+    · simp only [List.head?_cons, Option.any_some]
+      simp only [isDig, Bool.and_eq_false_imp, decide_eq_true_eq, decide_eq_false_iff_not] at hd
+      simp only [isOct, Bool.and_eq_false_imp, decide_eq_true_eq, decide_eq_false_iff_not]
+      intro h; have := hd h; omega
+  have hs : step q false 92 (48 :: r1) = ([92, 48], 1, true) := by
+    simp [step, escM, hno]
+  have hin : escStep (lg m qi) 48 r1 = some ([0], 1) := esc_nul ⟨hno, fun _ => hnd⟩
+  rw [repA_cons, hs]
+  have hd1 : List.drop 1 (48 :: r1) = r1 := rfl
+  simp only [hd1]
+  have hflag : repA q true r1 = repA q false r1 := by
+    rcases hnext with rfl | ⟨c, r', rfl, hc, _⟩
+    · rfl
+    · exact repA_raw_flag hc
+  rw [hflag]
+  have hok : NulOK (lg m q) (repA q false r1) := by
+    rcases hnext with rfl | ⟨c, r', rfl, hc, hd⟩
+    · exact ⟨by simp, fun _ => by simp⟩
+    · have hd' := hd
+      simp only [isDig, Bool.and_eq_false_imp, decide_eq_true_eq, decide_eq_false_iff_not] at hd'
+      have key : ∀ x, (x = 92 ∨ x = c ∨ (x = 10 ∧ c = 13)) → isDig x = false ∧ isOct x = false := by
+        intro x hx
+        simp only [isDig, isOct, Bool.and_eq_false_imp, decide_eq_true_eq, decide_eq_false_iff_not]
+        rcases hx with rfl | rfl | ⟨rfl, _⟩
+        · omega
+        · exact ⟨hd', fun h => by have := hd' h; omega⟩
+        · omega
+      rcases head_raw_cases (q := q) (an := false) (r := r') hc with h | h | ⟨h, h13⟩
+      · rw [NulOK, h]; simp only [Option.any_some]; exact ⟨(key 92 (Or.inl rfl)).2, fun _ => (key 92 (Or.inl rfl)).1⟩
+      · rw [NulOK, h]; simp only [Option.any_some]; exact ⟨(key c (Or.inr (Or.inl rfl))).2, fun _ => (key c (Or.inr (Or.inl rfl))).1⟩
+      · rw [NulOK, h]; simp only [Option.any_some]
+        exact ⟨(key 10 (Or.inr (Or.inr ⟨rfl, h13⟩))).2, fun _ => (key 10 (Or.inr (Or.inr ⟨rfl, h13⟩))).1⟩
+  exact finish_esc_at (o := [92, 48]) (k := 1) cx hv hg hin (dec_nul hq hok) ih
+
 
 end Verif.Proofs.JsString
